@@ -1,6 +1,7 @@
 /- Line-protocol driver for C17 (level registry) and the `Q` quoting probes. -/
 import Logg.Bridge.Registry
 import Logg.Gen.Decisions
+import Logg.Lemmas.SgrBase
 import Logg.Model.Unquote
 import Logg.Model.IsPrint
 
@@ -62,6 +63,10 @@ def stepQ (toks : List String) : String :=
   | ["go", s] => match ofHex s with | some s => toHex (goQuote isPrintTable s) | none => "bad-op"
   | ["json", s] => match ofHex s with | some s => toHex (jsonQuote s) | none => "bad-op"
   | ["unq", s] => match ofHex s with | some s => optHex (goUnquote s) | none => "bad-op"
+  | ["sgr", s] => match ofHex s with
+    | some s => let st := sgrScan Sgr.init s
+                if st.mode == 0 && !st.nz && !st.bad && !st.colored then "clean" else "dirty"
+    | none => "bad-op"
   | ["junq", s] => match ofHex s with | some s => optHex (jsonUnquote s) | none => "bad-op"
   | _ => "bad-op"
 
